@@ -6,14 +6,14 @@ CONSTANTS
   GivenIds = {}
   NumIds = {}
   SrcForms = {"absent", "ref"}
-  RefSuffixes = {"", "??;t!o"}
+  RefSuffixes = {"??;t!o"}
   AddrSuffixes = {""}
   UriSuffixes = {""}
   SrcHosts = {"localhost"}
   SrcPorts = {5552}
   OutForms = {"absent", "tcp", "two", "ipc"}
   OutHosts = {"127.0.0.1"}
-  Ports = {5552, 1024, 5556}
+  Ports = {5552, 1024}
   IpcNames = {"pipe"}
   Extras = {""}
   Defects = {"assign_empty_ignored", "ipc_name_clash"}
